@@ -53,11 +53,11 @@ func VerifConform(args []string) {
 		case "event":
 			conf.CompileOptions[ReportEvent] = true
 		case "off":
-			for _, k := range optimizations {
+			for _, k := range vfOptimizations {
 				conf.CompileOptions[k] = false
 			}
 		case "cf", "rn", "fe", "ro":
-			for _, k := range optimizations {
+			for _, k := range vfOptimizations {
 				conf.CompileOptions[k] = false
 			}
 			conf.CompileOptions[map[string]CompileOption{"cf": ConstantFolding, "rn": ReduceNesting, "fe": FastEvaluation, "ro": Reordering}[o]] = true
